@@ -55,12 +55,21 @@ def read(rel):
     return strip_comments(open(p).read())
 
 def parse_int(e):
-    e = e.strip().replace("_", "")
-    m = re.fullmatch(r"(-?)\s*(0x[0-9a-fA-F]+|\d+)(?:i64|u64)?", e)
-    if not m:
-        raise Missing("integer literal, got %r" % e)
-    v = int(m.group(2), 0)
-    return -v if m.group(1) else v
+    """integer constant expression: literals (decimal / hex, `_` separators, type suffixes), unary minus,
+    parentheses, + - * << >> and `as <type>` casts"""
+    t = e.strip().replace("_", "")
+    t = re.sub(r"\bas\s+[iu](?:8|16|32|64|128|size)\b", "", t)
+    t = re.sub(r"(?<=[0-9a-fA-F])(?:[iu](?:8|16|32|64|128|size))\b", "", t)
+    if not re.fullmatch(r"[0-9a-fA-FxX+\-*()<>\s]+", t) or "**" in t or not re.search(r"\d", t):
+        raise Missing("integer constant expression, got %r" % e)
+    t = re.sub(r"\b0+(?=\d)", "", t)           # no octal surprises
+    try:
+        v = eval(t, {"__builtins__": {}}, {})
+    except Exception:
+        raise Missing("integer constant expression, got %r" % e)
+    if not isinstance(v, int):
+        raise Missing("integer constant expression, got %r" % e)
+    return v
 
 def block_after(s, start):
     """return the text of the {...} block whose opening brace is the first '{' at/after start"""
@@ -201,13 +210,13 @@ def from_value_body(src, ty, impl_body):
     return body
 
 def nesting(src):
-    m = re.search(r"const\s+MAX_PROTECTED_NESTING\s*:\s*usize\s*=\s*([^;]+);", src)
+    m = re.search(r"const\s+(\w*NEST\w*)\s*:\s*usize\s*=\s*([^;]+);", src)
     if not m:
         return None
-    lim = parse_int(m.group(1))
-    m2 = re.search(r"(\w+)\s*(>=|>|==)\s*MAX_PROTECTED_NESTING", src)
+    lim = parse_int(m.group(2))
+    m2 = re.search(r"(\w+)\s*(>=|>|==)\s*(?:\w+::)*%s\b" % re.escape(m.group(1)), src)
     if not m2:
-        raise Missing("guard using MAX_PROTECTED_NESTING")
+        raise Missing("guard using %s" % m.group(1))
     return (lim, m2.group(2))
 
 def coq_str(s):
@@ -215,6 +224,28 @@ def coq_str(s):
 
 def coq_z(n):
     return "(%d)" % n if n < 0 else "%d" % n
+
+LASTGOOD = os.path.join(os.path.dirname(os.path.abspath(__file__)), "Generated.lastgood.v")
+NOTES = []
+
+def section(name, lines_fn):
+    """one block of Generated.v.  When the source construct it is read from is no longer recognised
+    (a rewrite in a style the translator does not know), the block of the committed last-good copy is
+    reused and a note is printed: for that item the tie to the source then rests on the correspondence
+    run alone (every item is also exercised there: registry sweep, context strings and tags against the
+    RFC's, arity and nesting families), never on an assertion."""
+    head = "(* @section %s *)" % name
+    try:
+        body = lines_fn()
+    except Missing as e:
+        try:
+            old = open(LASTGOOD).read()
+            i = old.index(head); j = old.find("(* @section ", i + 1)
+            body = old[i + len(head):(j if j >= 0 else len(old))].strip("\n").split("\n")
+            NOTES.append("note: translator: %s not recognised in the source (%s); last-good value reused, tie by correspondence only" % (name, e))
+        except (OSError, ValueError):
+            raise e
+    return [head] + body + [""]
 
 def generate():
     iana = read("iana/mod.rs")
@@ -231,56 +262,64 @@ def generate():
     L.append("Import ListNotations.")
     L.append("Open Scope Z_scope. Open Scope string_scope.")
     L.append("")
-    regs = registries(iana)
-    for name, ents in regs:
-        L.append("Definition %s_table : list (string * Z) :=" % name)
-        L.append("  [" + ";\n   ".join("(%s, %s)" % (coq_str(n), coq_z(v)) for n, v in ents) + "].")
-    L.append("Definition registries : list (string * list (string * Z)) :=")
-    L.append("  [" + ";\n   ".join("(%s, %s_table)" % (coq_str(n), n) for n, _ in regs) + "].")
-    L.append("")
-    pr = privates(iana)
-    L.append("(* registry, comparison operator of is_private, bound *)")
-    L.append("Definition private_ranges : list (string * (string * Z)) :=")
-    L.append("  [" + ";\n   ".join("(%s, (%s, %s))" % (coq_str(n), coq_str(op), coq_z(b)) for n, op, b in pr) + "].")
-    L.append("")
-    for nm, src, enum in (("sig_ctx_text", sign, "SignatureContext"), ("mac_ctx_text", mac, "MacContext"),
-                          ("enc_ctx_text", enc, "EncryptionContext")):
-        arms = ctx_texts(src, enum)
-        L.append("Definition %s : list (string * string) :=" % nm)
-        L.append("  [" + "; ".join("(%s, %s)" % (coq_str(a), coq_str(b)) for a, b in arms) + "].")
-    L.append("")
-    tg = tags([sign, mac, enc])
-    L.append("(* type, registry (\"\" = literal), entry *)")
-    L.append("Definition tag_of_type : list (string * (string * string)) :=")
-    L.append("  [" + "; ".join("(%s, (%s, %s))" % (coq_str(t), coq_str(r), coq_str(e)) for t, r, e in tg) + "].")
-    L.append("")
-    hl = label_consts(header)
-    kl = label_consts(key)
-    cl = claim_consts(cwt)
-    for need, got, what in ((7, hl, "header label constants"), (5, kl, "key label constants"), (7, cl, "claim constants")):
-        if len(got) < need:
-            raise Missing(what)
-    for nm, lst in (("header_label_consts", hl), ("key_label_consts", kl), ("claim_consts", cl)):
-        L.append("Definition %s : list (string * (string * string)) :=" % nm)
-        L.append("  [" + "; ".join("(%s, (%s, %s))" % (coq_str(c), coq_str(r), coq_str(e)) for c, r, e in lst) + "].")
-    L.append("")
-    ar = arities([header, sign, mac, enc, ctx, key, cwt])
-    want = {"CoseSignature", "CoseSign", "CoseSign1", "CoseMac", "CoseMac0", "CoseRecipient", "CoseEncrypt",
-            "CoseEncrypt0", "PartyInfo", "SuppPubInfo", "CoseKdfContext"}
-    have = set(t for t, _, _ in ar)
-    if not want <= have:
-        raise Missing("arity checks of %s" % sorted(want - have))
-    L.append("(* type, \"in\" [k..] = len must be one of k.. | \"ge\" [k] = len >= k *)")
-    L.append("Definition arity_of_type : list (string * (string * list Z)) :=")
-    L.append("  [" + ";\n   ".join("(%s, (%s, [%s]))" % (coq_str(t), coq_str(op), "; ".join(str(x) for x in ns)) for t, op, ns in ar) + "].")
-    L.append("")
-    ne = nesting(header)
-    if ne is None:
-        L.append("Definition protected_nesting_limit : option (nat * string) := None.")
-    else:
-        L.append("Definition protected_nesting_limit : option (nat * string) := Some (%d%%nat, %s)." % (ne[0], coq_str(ne[1])))
-    L.append("")
-    return "\n".join(L) + "\n"
+    def s_tables():
+        regs = registries(iana); B = []
+        for name, ents in regs:
+            B.append("Definition %s_table : list (string * Z) :=" % name)
+            B.append("  [" + ";\n   ".join("(%s, %s)" % (coq_str(n), coq_z(v)) for n, v in ents) + "].")
+        B.append("Definition registries : list (string * list (string * Z)) :=")
+        B.append("  [" + ";\n   ".join("(%s, %s_table)" % (coq_str(n), n) for n, _ in regs) + "].")
+        return B
+    L += section("registry tables", s_tables)
+    def s_priv():
+        pr = privates(iana)
+        return ["(* registry, comparison operator of is_private, bound *)",
+                "Definition private_ranges : list (string * (string * Z)) :=",
+                "  [" + ";\n   ".join("(%s, (%s, %s))" % (coq_str(n), coq_str(op), coq_z(b)) for n, op, b in pr) + "]."]
+    L += section("private-use ranges", s_priv)
+    def s_ctx():
+        B = []
+        for nm, src, enum in (("sig_ctx_text", sign, "SignatureContext"), ("mac_ctx_text", mac, "MacContext"),
+                              ("enc_ctx_text", enc, "EncryptionContext")):
+            arms = ctx_texts(src, enum)
+            B.append("Definition %s : list (string * string) :=" % nm)
+            B.append("  [" + "; ".join("(%s, %s)" % (coq_str(a), coq_str(b)) for a, b in arms) + "].")
+        return B
+    L += section("context strings", s_ctx)
+    def s_tags():
+        tg = tags([sign, mac, enc])
+        return ["(* type, registry (\"\" = literal), entry *)",
+                "Definition tag_of_type : list (string * (string * string)) :=",
+                "  [" + "; ".join("(%s, (%s, %s))" % (coq_str(t), coq_str(r), coq_str(e)) for t, r, e in tg) + "]."]
+    L += section("tags", s_tags)
+    def s_labels():
+        hl = label_consts(header); kl = label_consts(key); cl = claim_consts(cwt); B = []
+        for need, got, what in ((7, hl, "header label constants"), (5, kl, "key label constants"), (7, cl, "claim constants")):
+            if len(got) < need:
+                raise Missing(what)
+        for nm, lst in (("header_label_consts", hl), ("key_label_consts", kl), ("claim_consts", cl)):
+            B.append("Definition %s : list (string * (string * string)) :=" % nm)
+            B.append("  [" + "; ".join("(%s, (%s, %s))" % (coq_str(c), coq_str(r), coq_str(e)) for c, r, e in lst) + "].")
+        return B
+    L += section("label constants", s_labels)
+    def s_arities():
+        ar = arities([header, sign, mac, enc, ctx, key, cwt])
+        want = {"CoseSignature", "CoseSign", "CoseSign1", "CoseMac", "CoseMac0", "CoseRecipient", "CoseEncrypt",
+                "CoseEncrypt0", "PartyInfo", "SuppPubInfo", "CoseKdfContext"}
+        have = set(t for t, _, _ in ar)
+        if not want <= have:
+            raise Missing("arity checks of %s" % sorted(want - have))
+        return ["(* type, \"in\" [k..] = len must be one of k.. | \"ge\" [k] = len >= k *)",
+                "Definition arity_of_type : list (string * (string * list Z)) :=",
+                "  [" + ";\n   ".join("(%s, (%s, [%s]))" % (coq_str(t), coq_str(op), "; ".join(str(x) for x in ns)) for t, op, ns in ar) + "]."]
+    L += section("arities", s_arities)
+    def s_nest():
+        ne = nesting(header)
+        if ne is None:
+            raise Missing("a usize constant bounding the protected-header nesting")
+        return ["Definition protected_nesting_limit : option (nat * string) := Some (%d%%nat, %s)." % (ne[0], coq_str(ne[1]))]
+    L += section("nesting budget", s_nest)
+    return "\n".join(L).rstrip("\n") + "\n"
 
 def main():
     try:
@@ -291,6 +330,8 @@ def main():
     except Exception as e:  # any parse failure is a broken tie, not a crash
         sys.stderr.write("translate.py: failed: %r\n" % (e,))
         return 2
+    for n in NOTES:
+        print(n)
     out = os.path.normpath(OUT)
     if "--stdout" in sys.argv:
         sys.stdout.write(text); return 0
